@@ -1,6 +1,7 @@
 (* C04 -- full parse succeeds only when the whole input is consumed. Statements only. *)
 From Coq Require Import List NArith.
-From PT Require Import Model.Base Model.Stack Model.Texpr Model.Sem Proofs.FullParse.
+From PT Require Import Model.Base Model.Stack Model.Texpr Model.Sem Model.Tok Model.Ast Model.PegSpec Model.GenEnv Model.Wf.
+From PT Require Import Proofs.FullParse Proofs.PegSimBase Proofs.BoundaryOps Proofs.Boundary Proofs.PegMain Proofs.PegMain2 Proofs.FullParsePeg.
 
 (* try_parse returns Ok exactly when the rule matches a prefix and, after skipping trailing
    WHITESPACE/COMMENT (no trailing skip when the rule is atomic / compound-atomic or the EOI rule:
@@ -47,3 +48,80 @@ Theorem C04_no_reject_at_end : forall E fuel r pos t st,
   exists st'', try_parse E fuel r = Ok t st''.
 Proof. exact no_reject_at_end. Qed.
 Print Assumptions C04_no_reject_at_end.
+
+(* ---- the same in terms of pest's own semantics (Model/PegSpec.v) of the grammar the types were generated from -------------- *)
+
+(* which variant the generator picks (trailing skip or not) is decided by the kind of the rule *)
+Theorem C04_no_ignore_by_kind : forall eoi g I pred r d,
+  r <> eoi -> lookup_rule (g_rules g) r = Some d ->
+  no_ignore (env_of eoi g I pred) r = kind_atomic (o_kind d).
+Proof. exact no_ignore_by_kind. Qed.
+Print Assumptions C04_no_ignore_by_kind.
+
+(* the typed trailing skip is pest's implicit skip in non-atomic state: same end offset, same stack *)
+Theorem C04_trailing_skip_is_pest_skip : forall g eoi I pred,
+  ws_ok g = true -> eoi_fresh eoi g = true -> good_inp I -> glits_ok g ->
+  forall m n pos st gs,
+  pre I pos st gs ->
+  top_skip_p (env_of eoi g I pred) m pos st <> Fuel ->
+  p_skip (penv_of eoi g I pred) (p_call (penv_of eoi g I pred) (peg (penv_of eoi g I pred) n)) n ANon false pos (cache (stk st)) <> PFuel ->
+  forall pos' stk',
+  (exists t' st', top_skip_p (env_of eoi g I pred) m pos st = Ok (pos', t') st' /\ cache (stk st') = stk') <->
+  (exists toks, p_skip (penv_of eoi g I pred) (p_call (penv_of eoi g I pred) (peg (penv_of eoi g I pred) n)) n ANon false pos (cache (stk st))
+                = POk pos' stk' toks).
+Proof. exact top_skip_iff_peg_skip. Qed.
+Print Assumptions C04_trailing_skip_is_pest_skip.
+
+(* the full parse accepts exactly when pest matches a prefix with the rule and -- for an atomic / compound-atomic rule -- that
+   prefix is the whole input, or -- otherwise -- pest's implicit skip run after it ends at the end of the input *)
+Theorem C04_full_parse_is_pest : forall g eoi I pred,
+  ws_ok g = true -> eoi_fresh eoi g = true -> good_inp I -> glits_ok g ->
+  forall r d, callable eoi g r = true -> lookup_rule (g_rules g) r = Some d ->
+  forall m n,
+  try_parse (env_of eoi g I pred) m r <> Fuel ->
+  peg_full (penv_of eoi g I pred) n (kind_atomic (o_kind d)) r <> PFuel ->
+  forall t,
+  (exists st'', try_parse (env_of eoi g I pred) m r = Ok t st'') <->
+  (exists pos sk toks,
+     peg_entry (penv_of eoi g I pred) n r = POk pos sk toks /\
+     (exists st, try_parse_partial (env_of eoi g I pred) m r = Ok (pos, t) st /\ cache (stk st) = sk) /\
+     ((kind_atomic (o_kind d) = true /\ pos = i_end I) \/
+      (kind_atomic (o_kind d) = false /\
+       exists sk' toks', p_skip (penv_of eoi g I pred) (p_call (penv_of eoi g I pred) (peg (penv_of eoi g I pred) n)) n ANon false pos sk
+                         = POk (i_end I) sk' toks'))).
+Proof. exact full_parse_is_peg. Qed.
+Print Assumptions C04_full_parse_is_pest.
+
+(* verdict for verdict (accept at the end of the input / reject), no premise on pest's side *)
+Theorem C04_full_parse_agrees : forall g eoi I pred,
+  ws_ok g = true -> eoi_fresh eoi g = true -> good_inp I -> glits_ok g ->
+  forall r d, callable eoi g r = true -> lookup_rule (g_rules g) r = Some d ->
+  forall m, try_parse (env_of eoi g I pred) m r <> Fuel ->
+  exists n0, forall n, n0 <= n ->
+    full_agrees_with_peg I (peg_full (penv_of eoi g I pred) n (kind_atomic (o_kind d)) r)
+                         (try_parse (env_of eoi g I pred) m r) (try_parse_partial (env_of eoi g I pred) m r).
+Proof. exact full_parse_agrees_rev. Qed.
+Print Assumptions C04_full_parse_agrees.
+
+(* total form: for a grammar with a well-foundedness certificate both sides end for all large enough fuels and agree *)
+Theorem C04_full_parse_total : forall g eoi I pred rules c,
+  ws_ok g = true -> eoi_fresh eoi g = true -> good_inp I -> glits_ok g ->
+  wf_cert rules (e_rules (env_of eoi g I pred)) (e_skip (env_of eoi g I pred)) c = true ->
+  forall r d, callable eoi g r = true -> lookup_rule (g_rules g) r = Some d -> In r rules ->
+  exists n0 m0, forall n m, n0 <= n -> m0 <= m ->
+    full_agrees_with_peg I (peg_full (penv_of eoi g I pred) n (kind_atomic (o_kind d)) r)
+                         (try_parse (env_of eoi g I pred) m r) (try_parse_partial (env_of eoi g I pred) m r).
+Proof. exact full_parse_agrees_total. Qed.
+Print Assumptions C04_full_parse_total.
+
+(* non-vacuity: "a xy  b  " accepted through the trailing skip, "a xy  b x" rejected, atomic rule rejects "xy  " and accepts "xy" *)
+Theorem C04_example : full_agrees_with_peg (inp_of_str ex_in3)
+    (peg_full (penv_of 0%N ex_g (inp_of_str ex_in3) ex_nopred) 40 false 1%N)
+    (try_parse (env_of 0%N ex_g (inp_of_str ex_in3) ex_nopred) 40 1%N)
+    (try_parse_partial (env_of 0%N ex_g (inp_of_str ex_in3) ex_nopred) 40 1%N) /\
+  full_agrees_with_peg (inp_of_str ex_in4)
+    (peg_full (penv_of 0%N ex_g (inp_of_str ex_in4) ex_nopred) 40 true 2%N)
+    (try_parse (env_of 0%N ex_g (inp_of_str ex_in4) ex_nopred) 40 2%N)
+    (try_parse_partial (env_of 0%N ex_g (inp_of_str ex_in4) ex_nopred) 40 2%N).
+Proof. exact full_parse_agrees_instance. Qed.
+Print Assumptions C04_example.
